@@ -198,7 +198,8 @@ PROPS["C16"] = dict(
     level_note="trusted: harness/ref/ast.go and the printer; fields the statement does not mention are not compared",
     rule=("schemas from three generator families x printer styles; non-trivial = >=3 nodes and at least one of {>=2 rules on a node, enum/or/allOf, type shortcut, key shortcut, note}; distinct by printed spec"),
     assumptions=["the printer emits what the model says (the same printer feeds C01-C04, whose verdict oracles would expose a disagreement)"],
-    jobs=[job("ast", "^TestAST$", (4, 16), (6000, 400000), (600, 3000))],
+    jobs=[job("ast", "^TestAST$", (4, 16), (6000, 400000), (600, 3000)),
+          job("notes-on-shared-lines", "^TestNotesOnSharedLines$", (1, 2), (300, 4000), (600, 3000))],
 )
 PROPS["C13"] = dict(
     pkg="c13", level="exploration",
@@ -212,7 +213,8 @@ PROPS["C13"] = dict(
     assumptions=["printer styles are meaning-preserving by the language definition (new-line conventions, comments and annotation forms are listed in the statement)"],
     jobs=[job("schema", "^TestSchemaRespelling$", (4, 16), (4000, 150000), (600, 3000)),
           job("document", "^TestDocumentRespelling$", (2, 8), (6000, 250000), (600, 3000)),
-          job("probes", "^TestProbeRespelling$", (2, 8), (4000, 250000), (600, 3000))],
+          job("probes", "^TestProbeRespelling$", (2, 8), (4000, 250000), (600, 3000)),
+          job("misplaced-notes", "^TestMisplacedNotesAcrossLayouts$", (1, 4), (1500, 40000), (600, 3000))],
 )
 PROPS["C15"] = dict(
     pkg="c15", level="exploration",
